@@ -29,7 +29,7 @@ RULE = ("real read_pin + brew on generated tables (1-3 files, 2-5 folds, label e
         "the real assign_confidence and the result files are compared with Model/Confidence.v on the direction-adjusted "
         "scores (when those are pairwise distinct). "
         "Plus assign_confidence on generated tables with given score vectors: descs all False or MIXED per collection, "
-        "scores as float / int / float32 array or (n,1) array (a plain list is rejected by a type check), with and without tied scores; and assign_confidence with "
+        "scores as float / int / unsigned int / float32 array or (n,1) array (a plain list is rejected by a type check), with and without tied scores; and assign_confidence with "
         "scores=None (its own best feature per collection, expected to be ranked in that feature's direction). "
         "non-trivial (from the OUTCOME of the run, see tags out:*) = the fall-back is taken, or a model is untrained, or a "
         "returned direction is lower-is-better; for assign_confidence cases: a lower-is-better collection in a table where "
@@ -262,7 +262,15 @@ def gen(ctx):
             descs[crng.randrange(ncoll)] = False
             if all(not d for d in descs):
                 descs[crng.randrange(ncoll)] = True
-        c = dict(c, fn="conf", descs=descs, container=crng.choice(["f64", "f64", "i64", "f32", "col"]))
+        c = dict(c, fn="conf", descs=descs, container=crng.choice(["f64", "f64", "i64", "f32", "col", "u16", "u16"]))
+        if c["container"] == "u16":
+            # unsigned scores (a uint8 / uint16 feature of a Parquet file handed on as the score): negating them for a
+            # lower-is-better collection must not wrap around (repaired in /repo, f049513)
+            if all(float(v).is_integer() and abs(v) < 30000 for sc in c["scores"] for v in sc):
+                lo = min([0] + [int(v) for sc in c["scores"] for v in sc])
+                c["scores"] = [[int(v) - lo for v in sc] for sc in c["scores"]]
+            else:
+                c["container"] = "f64"
         c["tags"] = ["conf-given-scores", "descs=" + ("all-false" if not any(descs) else "mixed"), "scores-as=" + c["container"]] + c["tags"][1:]
         cases.append(c)
     # assign_confidence chooses the best feature itself (scores=None)
@@ -505,6 +513,8 @@ def _conf_container(s, kind):
         return np.array([int(v) for v in s], dtype=np.int64)
     if kind == "f32":
         return np.array(s, dtype=np.float32)
+    if kind == "u16":
+        return np.array([int(v) for v in s], dtype=np.uint16)
     if kind == "col":
         return np.array(s, dtype=float).reshape(-1, 1)
     return np.array(s, dtype=float)
